@@ -165,3 +165,10 @@ Proof.
   apply (in_map fd_key) in Hin. rewrite ex_keys, Hk in Hin.
   destruct Hin as [Hx|[Hx|[Hx|[Hx|[]]]]]; vm_compute in Hx; discriminate.
 Qed.
+
+Lemma ex_data :
+  ex_hist = firstn 9 ex_hist ++ r_data :: [r_flowC_data] /\
+  row_data_key r_data = Some sD1 /\ row_data_key r_flowC_data = None /\
+  rmap (fun st => option_map (fun ds => okeys (ds_rows ds)) (sget (st_data st) sD1))
+       (run_rows ex_wbs ex_hist st0) = Ok (Some [s_r1; s_r2]).
+Proof. repeat split; vm_compute; reflexivity. Qed.
